@@ -198,6 +198,19 @@ CHECKS = {
         note="Network = urllib.request.urlopen stub inside the harness process; body-read failures are not scripted; an "
              "outside sentinel directory is part of every snapshot.",
         ref="5/C19"),
+    "C17": dict(
+        technique="TLA+ requirement for the dep5 wildcard language (Dep5Glob.tla) compared by TLC, through the product of "
+                  "subset-construction automata, with the matcher the real code compiles for the converted glob (language "
+                  "equality for paths of any length); step model of the command with fault points (ConvertDep5.tla) "
+                  "model-checked; TLC trace validation of lint before/after real conversions and of file-system event order",
+        text="Every well-formed dep5 pattern up to the bound (and seeded longer ones) is converted by the real code and the "
+             "two matchers are compared as languages by TLC; whole projects (several paragraphs and patterns, multi-line "
+             "copyright, comments, in-file information to aggregate with) are converted for real and TLC checks that every "
+             "path keeps exactly its copyright lines and expressions apart from the source's name, that REUSE.toml is "
+             "written before dep5 is removed, that a failed write keeps dep5, and that the command refuses without dep5.",
+        note="Two open findings (KF-C17-1 '?', KF-C17-2 '*/') are matched by TLA+ signatures; the dep5 side of the language "
+             "comparison is the Debian specification as transcribed in Dep5Tok.",
+        ref="5/C17"),
     "C03": dict(
         technique="TLA+ requirement CoverReq (three-valued: must / must not / unpinned) vs walk-with-pruning mechanism "
                   "model-checked by TLC; TLC-enumerated directory-context x name-class x type x VCS-wish nodes built as "
